@@ -37,9 +37,25 @@ def private_configs(tier):
     return []
 
 
+def _csv_env():
+    """BinPack on a CSVGenerator (the instance file is written from the ToyGenerator's instance into the cache directory)"""
+    import os
+    import jax
+    from harness import core
+    from jumanji.environments import BinPack
+    from jumanji.environments.packing.bin_pack import generator as G
+    d = os.path.join(core.CACHE, "binpack_csv")
+    os.makedirs(d, exist_ok=True)
+    path = os.path.join(d, "toy_instance.csv")
+    if not os.path.exists(path):
+        G.save_instance_to_csv(G.ToyGenerator()(jax.random.PRNGKey(0)), path)
+    return BinPack(generator=G.CSVGenerator(path, max_num_ems=40), obs_num_ems=10)
+
+
 def extra_configs(tier, add):
     from jumanji.environments import BinPack
     from jumanji.environments.packing.bin_pack import generator as G, reward as R
+    add("csv-toy", _csv_env, 24, batch=2)
     if tier != "quick":
         add("tiny7x5x3-ems4-obs3", _tiny, 11)
         add("rand6-ems3", lambda: BinPack(generator=G.RandomGenerator(max_num_items=6, max_num_ems=3, split_num_same_items=2), obs_num_ems=3), 8)
@@ -408,6 +424,8 @@ def analyze(kit):
             res["C10"].count("distinct-instances/%d-keys" % nk, len(seen))
             if len(seen) < max(2, nk // 2) and max(cdims) > 10 and d.n - same + 1 > 1:
                 kit.fail(["C10"], "generator does not depend on the key (repeated instances)", dict(cfg=label, op="key-dependence"), dict(keys=nk, distinct=len(seen), seed=kit.seed))
+        elif isinstance(gen, G.CSVGenerator):
+            pass      # instance read from a file: no generate_solution; its reset state is compared with init(instance) below
         else:
             # ToyGenerator (literal instance): its solution tiles the container
             sol = to_np(gen.generate_solution(keys[0]))
